@@ -286,7 +286,7 @@ static long check_all_released(int64_t from, int64_t to, const char* where) {
 
 /* ---------- worker-thread teardown ---------- */
 
-struct job { uint64_t seed; int nops; int64_t first_id, last_id; int garbage_left; };
+struct job { uint64_t seed; int nops; int64_t first_id, last_id; int garbage_left; int ended_stopped; };
 static struct job JOB;
 
 static var worker_fn(var args) {
@@ -299,19 +299,22 @@ static var worker_fn(var args) {
   /* leave live garbage and held managed objects behind on purpose */
   for (int i = 0; i < 10; i++) { int64_t id; var g = new_probe(&r, HK_MANAGED, &id); g = NULL; JOB.garbage_left++; }
   finish_world(&w);
+  /* every third worker ends with its collector stopped: teardown still finalises what is registered */
+  if (JOB.seed % 3 == 0) { stop(current(GC)); JOB.ended_stopped = 1; }
   JOB.last_id = id_counter;
   return NULL;
 }
 
 static void case_worker(vh_rng* r, int nops) {
-  JOB.seed = vh_next(r); JOB.nops = nops; JOB.garbage_left = 0;
+  JOB.seed = vh_next(r); JOB.nops = nops; JOB.garbage_left = 0; JOB.ended_stopped = 0;
   var f = $(Function, worker_fn);
   var t = new(Thread, f);
   vh_op("worker thread ops=%d", nops);
   call(t);
   join(t);
-  check_all_released(JOB.first_id, JOB.last_id, "worker-thread");
+  check_all_released(JOB.first_id, JOB.last_id, JOB.ended_stopped ? "worker-thread-that-ended-with-its-collector-stopped" : "worker-thread");
   vh_count("worker_teardowns_with_live_garbage");
+  if (JOB.ended_stopped) { vh_count("teardowns_with_the_collector_stopped"); }
   del(t);
 }
 
@@ -343,6 +346,7 @@ static void case_process(vh_rng* r, int nops) {
     run_ops(r, &w, nops, "child");
     for (int i = 0; i < 10; i++) { int64_t id; var g = new_probe(r, HK_MANAGED, &id); g = NULL; }
     finish_world(&w);
+    if (vh_chance(r, 35)) { stop(current(GC)); }      /* the program may end with its collector stopped */
     exit(vh.violations ? 8 : 0);     /* normal exit: atexit(Cello_Exit) tears the collector down */
   }
   int st = 0;
